@@ -217,6 +217,24 @@ def first_diff(a, b):
     return None
 
 
+def _shrink(o, max_str=1200, max_list=40, depth=0):
+    """keep evidence / replay files readable and small: long strings and long lists are cut"""
+    if isinstance(o, str):
+        return o if len(o) <= max_str else o[:max_str] + "...(%d chars)" % len(o)
+    if isinstance(o, (list, tuple)):
+        l = [_shrink(x, max_str, max_list, depth + 1) for x in list(o)[:max_list]]
+        if len(o) > max_list:
+            l.append("...(%d items)" % len(o))
+        return l
+    if isinstance(o, dict):
+        items = list(o.items())
+        d = {str(k): _shrink(v, max_str, max_list, depth + 1) for k, v in items[:400]}
+        if len(items) > 400:
+            d["..."] = "%d keys" % len(items)
+        return d
+    return o
+
+
 def finish(ctx, res):
     """decide, write evidence + replay, print VIOLATION / KNOWN-FINDING lines, return exit code.
 
@@ -294,8 +312,17 @@ def finish(ctx, res):
     }
     if "leanchecker" in ctx.proof:
         ev["coverage"]["leanchecker"] = ctx.proof["leanchecker"]
-    with open(os.path.join(VERIF, "evidence", ctx.pid + ".json"), "w") as fh:
-        json.dump(ev, fh, indent=1, default=str)
+    ev = json.loads(json.dumps(ev, default=str))
+    ev["coverage"] = _shrink(ev["coverage"])
+    txt = json.dumps(ev, indent=1)
+    if len(txt) > 400000:
+        ev["coverage"] = _shrink(ev["coverage"], max_str=300, max_list=12)
+        ev["coverage"]["samples"] = ev["coverage"].get("samples", [])[:2]
+        txt = json.dumps(ev, indent=1)
+    tmp = os.path.join(VERIF, "evidence", ctx.pid + ".json.tmp%d" % os.getpid())
+    with open(tmp, "w") as fh:
+        fh.write(txt)
+    os.replace(tmp, os.path.join(VERIF, "evidence", ctx.pid + ".json"))
     if rc == 0:
         print("OK property=%s tier=%s seed=%d obligations=%d discharged=%d evaluations=%d wall=%.1fs"
               % (ctx.pid, ctx.tier, ctx.seed, ctx.proof["obligations"], ctx.proof["discharged"],
